@@ -5,23 +5,62 @@ VARIANT = "san"
 HARNESS_FLAGS = ("-fno-access-control",)
 RULE = "see stats"
 TIMEOUT = {"quick": 900, "thorough": 3 * 3600, "search": 1800}
+import os as _os
+
+
+def _has_h4():
+    """is the op-log hook H4 (fixes/hook-h4-density-legalizer-oplog.diff) present in the tree under check?"""
+    try:
+        hdr = _os.path.join(_os.environ.get("VERIF_REPO", "/repo"), "src", "place_global", "density_legalizer.hpp")
+        return "COLOQUINTE_VERIF_HAS_H4" in open(hdr).read()
+    except OSError:
+        return False
+
+
+HAS_H4 = _has_h4()
+_PASSES_H4 = (
+    "public passes run/runCoarsening/runRefinement/refine/improve: their integer control flow — which bin groups are "
+    "visited and in which order (square/line/diagonal windows with the sizes, strides and overlaps of the parameters, "
+    "neighbour pairs after refinement, level changes) — is modelled in Lean (`Model/GridSched.lean`, `passCalls`) with holes "
+    "only for the float-dependent choices (sort order/split of rebisect, assignment of reoptimize/transport, the doX/doY "
+    "decisions of runCoarsening's first loop), and `schedule_ops_preserve_alloc` proves the allocation invariant after every "
+    "schedule for every filling of the holes.  That the real passes follow this hand-written schedule model is not proved for "
+    "all inputs: the op-log hook H4 (present in this tree) logs every private rebisect/reoptimize/improveX/YTransport call "
+    "(nested calls included) and every level change of a pass, and on every explored pass the Lean driver checks call by call "
+    "that the logged call with its bin arguments is the next one of the schedule, that the numbers of calls and of coarsening "
+    "decisions agree, and that the skeleton of the *scheduled* call with the observed permutation/split/assignment reproduces "
+    "the touched bins and their cellBinX/Y exactly (the whole allocation after transports, level changes and at the end of "
+    "the pass); counted: pass_calls_checked_against_schedule.")
+_PASSES_NO_H4 = (
+    "public passes run/runCoarsening/runRefinement/refine/improve: their integer control flow is modelled in Lean "
+    "(`Model/GridSched.lean`, `passCalls`) and `schedule_ops_preserve_alloc` proves the allocation invariant after every schedule "
+    "for every filling of the float-dependent holes, BUT the tree under check does not contain the op-log hook H4 "
+    "(fixes/hook-h4-density-legalizer-oplog.diff, not applied), so the internal sequence of calls is not observable and the "
+    "schedule model is not tied to this tree: only the snapshot after each pass is checked (Lean `allocOkB` on the snapshot + the "
+    "direct oracle), on explored runs (counted: pass_checked_by_snapshot_only).  With the hook applied every call of every "
+    "explored pass is checked against the schedule (see the hook's .msg).")
 PARTIAL = [
-    "rough-legalization passes: the theorem `alloc_inv` covers every sequence of refine/coarsen and *skeleton* steps "
+    "rough-legalization calls: the theorem `alloc_inv` covers every sequence of refine/coarsen and *skeleton* steps "
     "(`redistribute` and its instances rebisect/reoptimize/improveX/YTransport for every permutation, split index and "
     "assignment vector).  That the real `rebisect`/`reoptimize`/`improveRectangle`/`improveX/YTransport` are instances of "
-    "the skeletons is not proved for all inputs: it is checked on every explored call (the permutation/split/assignment is "
-    "read off the real result and the Lean skeleton must reproduce the resulting state exactly, bin contents in order and "
-    "cellBinX/Y), and by the code's own check() asserts, which are compiled in.",
-    "public passes run/runCoarsening/runRefinement/refine/improve (whose internal sequence of reoptimize calls is not "
-    "observable without a hook): only the snapshot after the pass is checked (Lean `allocOkB` on the snapshot + the direct "
-    "oracle), on explored runs.",
+    "the skeletons is not proved for all inputs: it is checked on every explored call — direct calls of the private members"
+    + (" and every call made inside a public pass" if HAS_H4 else "") +
+    " (the permutation/split/assignment is read off the real result and the Lean skeleton must reproduce the resulting state "
+    "exactly, bin contents in order and cellBinX/Y), and by the code's own check() asserts, which are compiled in.",
+    _PASSES_H4 if HAS_H4 else _PASSES_NO_H4,
     "reported coordinates inside the bin (`spreadCoordX/Y`, float): owned by C06 (`spread_inside` over Rat); here it is "
     "evaluated by the direct oracle on every explored state (closed interval, binary32 as computed by the code).",
-    "`capacity = free row area`: proved as capacity = sum over the given regions of area(region ∩ bin) and Σ bins = Σ "
-    "region areas (`capacity_conserved`, `ofRegions_ok`); that the regions handed over by fromIspdCircuit are the free row "
-    "segments (boost::polygon, C15's `computeRows`) minus the margin is tied by the correspondence and evaluated independently "
-    "(1-D interval code, no boost) by the direct oracle.  binary32 `sideMargin*minCellHeight` / `sizeFactor*minCellHeight` are "
-    "modelled exactly (round-to-nearest-even 24-bit product, then truncation) and compared on every circuit case.",
+    "`capacity = free row area`: proved in Lean for every circuit whose rows have the C01 domain shape (`RowsDom`: uniform positive "
+    "row height, rows pairwise non-intersecting, non-empty x-ranges) and sideMargin >= 0 (`circuit_grid_capacity_is_free_area`): the "
+    "regions fromIspdCircuit builds from the model's `computeRows` (C15) are valid, pairwise disjoint and inside the limits, total "
+    "capacity = sum of the clipped free segments' areas, bin capacity = number of unit squares of the bin inside a clipped free "
+    "segment.  Not proved: (i) that the code's fromIspdCircuit / boost::polygon computeRows compute the model's regions — tied by the "
+    "exact differential stream (limits, capacities, margins) here and by C15's correspondence, and evaluated independently (1-D "
+    "interval code, no boost) by the direct oracle; (ii) circuits outside RowsDom (counted: circuit_rows_outside_theorem_domain) and "
+    "grids built from arbitrary region lists: only `capacity_conserved` (capacity = sum over regions of area(region ∩ bin), "
+    "overlapping regions counted with multiplicity) plus the oracle on explored cases.  binary32 `sideMargin*minCellHeight` / "
+    "`sizeFactor*minCellHeight` are modelled exactly (round-to-nearest-even 24-bit product, then truncation) and compared on every "
+    "circuit case.",
 ]
 ASSUMPTIONS = [
     "fromIspdCircuit fallback (fix 9a57cdd): when the side margin removes every row the grid is built from the free rows without "
@@ -40,9 +79,11 @@ ASSUMPTIONS = [
 LEVEL_TEXT = ("Lean 4 theorems over an executable model of computeSubdivisions, DensityGrid (limits, capacities as sums of rectangle "
               "intersections, fromIspdCircuit incl. exact binary32 margin/bin-size products), the refinement hierarchy and "
               "HierarchicalDensityPlacement (refine/coarsen/setBinCells, cellBinX/Y), plus parametric skeletons of the rough-legalizer "
-              "redistribution steps; the model is tied to the C++ by an exact differential stream (limits, capacities, hierarchy levels, "
-              "every allocation after every step) and the property statement itself is evaluated by independent C++ on every explored state")
+              "redistribution steps and a schedule model of the public passes' integer control flow (which bin groups, in which order); "
+              "fromIspdCircuit's regions are proved valid/disjoint/inside the limits on top of C15's interval lemmas; the model is tied to the C++ by an exact differential stream (limits, capacities, hierarchy levels, "
+              "every allocation after every step; with the op-log hook H4 every private call of every public pass against the schedule) and the property statement itself is evaluated by independent C++ on every explored state")
 LEVEL_NOTE = ("Trusted: Lean kernel (axioms propext/Classical.choice/Quot.sound only), the hand-written model's tie to the code "
               "(differential, bounded by the generator), unbounded Int for C++ int, the skeleton abstraction of the float-driven passes "
-              "(checked per explored call, not proved).")
+              "(checked per explored call, not proved), the hand-written schedule model of the passes (checked per explored call through hook H4 "
+              "when the tree has it, otherwise not tied).")
 TECHNIQUE = "Lean 4 proof (partition sums, induction over op lists) + model/implementation correspondence stream + independent oracle"
